@@ -28,6 +28,9 @@ Fuel(r) == 4 * (Len(r.recs) + CeilDiv(Total(r.recs), r.P)) + 20
 ImplStream(r) == IF r.version = 1
                  THEN FC!Run(FC!InitSt(r.recs, r.kinds, Disk(r), r.P), Fuel(r)).out
                  ELSE HC!Run(HC!InitSt(r.recs, Disk(r), r.P), Fuel(r)).out
+\* the content-root search (FindRoot.tla) on the recorded world: r.world = [files, dirs] (sequences of paths)
+FR == INSTANCE FindRoot WITH Variant <- "fixed", w <- 0, done <- 0
+FrFs(r) == [files |-> SeqToSet(r.world.files), dirs |-> SeqToSet(r.world.dirs)]
 Clause(r, c) ==
   CASE c = "M16.impl" -> Failed(r) \/ r.nostream \/ Got(r) = ImplStream(r)
     [] c = "C16.stream" -> ~Failed(r) /\ (r.nostream \/ Got(r) = Ref(r))
@@ -35,6 +38,9 @@ Clause(r, c) ==
     [] c = "C16.ppm"    -> ~Failed(r) /\ Abs(r.ppm - SharePpm(Ref(r))) <= 1 /\ r.ppm2 = r.ppm
     [] c = "C04.lt100"  -> IsIntact(r) \/ Failed(r) \/ (r.ppm < 100000000 /\ r.ppm2 < 100000000)
     [] c = "C05.hundred" -> ~IsIntact(r) \/ (~Failed(r) /\ r.ppm = 100000000 /\ r.ppm2 = 100000000)
+    \* the real find_root returns what the model computes for this world, and that is the payload root
+    [] c = "M05.findroot" -> r.got = FR!FindRoot(FrFs(r), r.fmeta, r.path)
+    [] c = "C05.findroot" -> ~Failed(r) /\ r.ppm = 100000000
     [] c = "C05.rootparent" -> ~InGrp(r) \/ (r.status = grp.status /\ r.ppm = grp.ppm)
     [] OTHER -> FALSE
 
